@@ -1,4 +1,5 @@
 """C20 — gogenproto: protoc gets exactly the in-scope protos, includes, mappings."""
+import concurrent.futures
 import json
 import os
 
@@ -81,6 +82,21 @@ def hist(it):
     return dict(sorted(h.items()))
 
 
+def ood_stream(ctx, tools, quick):
+    """informational out-of-domain stream: never gates"""
+    ood = {}
+    t, jo, err = pl.run_harness(ctx, tools, "ood", ["-mode", "ood", "-n", 15 if quick else 200, "-flagsets", 2])
+    if not err and t:
+        b, _, err = pl.judge(ctx, t, tag="ood")
+        if not err:
+            codes = {k: c % 4 for k, c in b}
+            for k, j in enumerate(jo):
+                d = ood.setdefault(j["kind"], {"cases": 0, "agree": 0, "spec_violated": 0, "model_differs": 0})
+                d["cases"] += 1
+                d[{0: "agree", 1: "spec_violated", 2: "model_differs"}[codes.get(k, 0)]] += 1
+    return ood
+
+
 def run(ctx):
     ctx.trusted = TRUSTED
     ctx.assumptions = [
@@ -128,7 +144,12 @@ def run(ctx):
         terms += t
         jsons += j
         ctx.log("harness %s: %d cases" % (tag, len(t)))
-    bad, exact, err = pl.judge(ctx, terms, fn="proto_judge_sig", count="exact_and_hyps")
+    # the informational out-of-domain stream runs beside the judgement of the gating cases
+    pool = concurrent.futures.ThreadPoolExecutor(max_workers=1)
+    ood_future = pool.submit(ood_stream, ctx, tools, quick)
+    bad, exact, err = pl.judge(ctx, terms, fn="proto_judge_sig", count="exact_and_hyps", shard=60)
+    ood = ood_future.result()
+    pool.shutdown()
     if err:
         ctx.report({"unchecked": "in-kernel evaluation of the correspondence", "detail": err},
                    {"kind": "coq_eval"}, failing_input=False)
@@ -157,17 +178,6 @@ def run(ctx):
                "replay_cmd": "./check C20 --replay <this file>"}
         ctx.report(rep, features(j, diff), failing_input=(code == 1))
 
-    # informational out-of-domain stream: never gates
-    ood = {}
-    t, jo, err = pl.run_harness(ctx, tools, "ood", ["-mode", "ood", "-n", 16 if quick else 200, "-flagsets", 2])
-    if not err and t:
-        b, _, err = pl.judge(ctx, t, tag="ood")
-        if not err:
-            codes = {k: c % 4 for k, c in b}
-            for k, j in enumerate(jo):
-                d = ood.setdefault(j["kind"], {"cases": 0, "agree": 0, "spec_violated": 0, "model_differs": 0})
-                d["cases"] += 1
-                d[{0: "agree", 1: "spec_violated", 2: "model_differs"}[codes.get(k, 0)]] += 1
     nt = [j for j in jsons if nontrivial(j)]
     ctx.cov.update({
         "evaluations": len(jsons),
